@@ -1,6 +1,7 @@
 from propcfg.common import COMMON_ASSUME
 
 CFG = {
+    "confirm_rerun": False,  # the property is about run-to-run variation / timing: a failure stands as observed
     "bin": "c20",
     "extra_bins": ["tbp"],
     "technique": "Lean 4 proof (writers parameterised by the hash-iteration order, statements over every permutation; exec.d replacement also on a "
